@@ -40,6 +40,21 @@ def _nonadj(spec) -> bool:
     return False
 
 
+def _shape(spec) -> tuple:
+    """Component layout, groups descended: (kind, modes) per component."""
+    out = []
+    for s in spec:
+        tn = type(s).__name__
+        modes = tuple(getattr(s, a) for a in ("mode", "mode_1", "mode_2")
+                      if isinstance(getattr(s, a, None), int))
+        out.append((tn, modes, _shape(s.circuit_spec) if tn == "Group" else ()))
+    return tuple(out)
+
+
+def _count_shape(sh) -> int:
+    return sum(1 + _count_shape(x[2]) for x in sh)
+
+
 def _close(a, b) -> bool:
     if isinstance(a, tuple) or isinstance(b, tuple):
         return isinstance(a, tuple) and isinstance(b, tuple) and a == b
@@ -81,6 +96,17 @@ class RewriteMonitor(Monitor):
         from .c08 import FrameMonitor  # noqa: PLC0415
         self.pre_resp = {cid: FrameMonitor.response(None, w.pool["c"][cid])
                          for cid in self.relatives(op)}
+        # a rewrite or copy acts on one circuit: the component layout of every
+        # other circuit (a shared Group object is rewritten through any holder)
+        # stays as it was, also where the matrices happen to agree
+        self.pre_shapes = {}
+        if op["op"] in ("copy", *REWRITES) and w.has("c", op.get("c")):
+            for cid, c in w.pool["c"].items():
+                if cid != op["c"]:
+                    try:
+                        self.pre_shapes[cid] = _shape(c._get_circuit_spec())
+                    except Exception:  # noqa: BLE001
+                        pass
         if op["op"] in ("copy", *REWRITES) and w.has("c", op.get("c")):
             try:
                 self.pre_params = [id(p) for p in
@@ -222,6 +248,22 @@ class RewriteMonitor(Monitor):
                                      "rewritten circuit differs from its "
                                      f"un-rewritten twin (max {_maxdiff(a[4], b[4])})"))
                     del self.shadows[cid]
+        for cid, old in getattr(self, "pre_shapes", {}).items():
+            if not w.has("c", cid) or cid == op.get("out"):
+                continue
+            try:
+                new = _shape(w.pool["c"][cid]._get_circuit_spec())
+            except Exception:  # noqa: BLE001
+                continue
+            w.probe("bystander_layout_checked")
+            if new != old:
+                return [self.v({"kind": "shared_structure", "op": k,
+                                "frozen": bool(w.meta["c"].get(cid, {}).get("frozen")),
+                                "related": self.fam(cid) == self.fam(op["c"]),
+                                "what": "component_layout"},
+                               f"('c', {cid}): component layout changed "
+                               f"({_count_shape(old)} -> {_count_shape(new)} "
+                               f"components) when {k} acted on ('c', {op['c']})")]
         for cid, old in getattr(self, "pre_resp", {}).items():
             if not w.has("c", cid) or not obs_equal(
                     before.get(("c", cid)), after.get(("c", cid))):
